@@ -1,7 +1,294 @@
-import PsutilModel.Model.C11Gen
-import PsutilModel.Spec.C11
-namespace Psutil.C11
+/-
+  Props/C11.lean — property theorems for C11 (`net_connections()`): only statements the
+  property makes; helper lemmas live in Proofs/C11*.lean.
 
-theorem C11_placeholder : cfg.inodesExtend = true := by decide
+  `cfg` is built from Generated/C11.lean, which the translator rewrites from /repo's source on
+  every run. `cfg_good` is the proof obligation that breaks when a table entry, a constant, a
+  tuple-unpack index, the UNIX path expression or the inode-merge statement changes.
+  The host's endianness is *not* part of `Cfg.Good`: every theorem below holds for both.
+-/
+import PsutilModel.Proofs.C11World
+import PsutilModel.Model.C11Gen
+set_option linter.unusedSimpArgs false
+namespace Psutil.C11
+open Spec
+
+theorem cfg_good : cfg.Good := by constructor <;> decide
+
+/-- the extracted configuration on a host of either endianness -/
+def cfgLE (le : Bool) : Cfg := { cfg with littleEndian := le }
+
+theorem cfgLE_good (le : Bool) : (cfgLE le).Good := by
+  have g := cfg_good
+  exact ⟨g.afInet, g.afInet6, g.afUnix, g.sockStream, g.connNone, g.statuses, g.inodesExtend,
+    g.unixPathRest, g.inetN, g.iLaddr, g.iRaddr, g.iStatus, g.iInode, g.unixN, g.uType, g.uInode⟩
+
+/-! ## Addresses -/
+
+/-- **C11_addr_roundtrip_v4.** For EVERY IPv4 address (4 bytes), every non-zero port and both host
+    endiannesses: what `decode_address` hands to `inet_ntop` from the kernel's `%08X:%04X` text
+    (the address word printed as a host-order integer) is the address the socket is bound to. -/
+theorem C11_addr_roundtrip_v4 (le : Bool) (b0 b1 b2 b3 port : Nat)
+    (h0 : b0 < 256) (h1 : b1 < 256) (h2 : b2 < 256) (h3 : b3 < 256) (hp0 : 0 < port) (hp : port < 65536) :
+    decodeAddress (cfgLE le) (renderEndpoint le [b0, b1, b2, b3] port) cfg.afInet
+      = .ok (.ip [b0, b1, b2, b3] port) := by
+  have hb : ∀ b ∈ [b0, b1, b2, b3], b < 256 := by
+    intro b hm; simp at hm; rcases hm with h | h | h | h <;> subst h <;> assumption
+  have := decode_v4 (cfgLE le) (cfgLE_good le) [b0, b1, b2, b3] rfl hb port hp
+  have hne : port ≠ 0 := by omega
+  simpa [endpoint, hne, cfg_good.afInet, cfgLE] using this
+
+/-- **C11_addr_roundtrip_v6.** The same for EVERY IPv6 address (16 bytes: mapped, link-local,
+    all-zero, anything): four `%08X` words, each in host order. -/
+theorem C11_addr_roundtrip_v6 (le : Bool) (ip : List Nat) (port : Nat) (hl : ip.length = 16)
+    (hb : ∀ b ∈ ip, b < 256) (hp0 : 0 < port) (hp : port < 65536) :
+    decodeAddress (cfgLE le) (renderEndpoint le ip port) cfg.afInet6 = .ok (.ip ip port) := by
+  have := decode_v6 (cfgLE le) (cfgLE_good le) ip hl hb port hp
+  have hne : port ≠ 0 := by omega
+  simpa [endpoint, hne, cfg_good.afInet6, cfgLE] using this
+
+/-- **C11_port_zero_empty.** Port 0 gives the empty tuple, whatever the address column holds and
+    whatever the family. -/
+theorem C11_port_zero_empty (le : Bool) (ip : List Nat) (family : Nat) :
+    decodeAddress (cfgLE le) (renderEndpoint le ip 0) family = .ok .empty := by
+  unfold decodeAddress
+  rw [splitOn_endpoint]
+  simp [parseHex_hexW4 0 (by decide)]
+
+/-! ## Status -/
+
+/-- **C11_status_map.** Each of the 11 TCP states, printed `%02X` by the kernel, is mapped by the
+    extracted `TCP_STATUSES` to that state's name. -/
+theorem C11_status_map (st : Nat) (h1 : 1 ≤ st) (h2 : st ≤ 11) :
+    ∃ name, stateName st = some name ∧ cfg.tcpStatuses.lookup (hexW 2 st) = some name := by
+  obtain ⟨n, hn⟩ := stateName_some st h1 h2
+  exact ⟨n, hn, by rw [cfg_good.status st h1 h2, hn]⟩
+
+/-- the names are pairwise different (no two states are confused) -/
+theorem C11_status_injective (a b : Nat) (ha : 1 ≤ a ∧ a ≤ 11) (hb : 1 ≤ b ∧ b ≤ 11)
+    (h : stateName a = stateName b) : a = b := by
+  obtain ⟨a1, a2⟩ := ha
+  obtain ⟨b1, b2⟩ := hb
+  have hA : a = 1 ∨ a = 2 ∨ a = 3 ∨ a = 4 ∨ a = 5 ∨ a = 6 ∨ a = 7 ∨ a = 8 ∨ a = 9 ∨ a = 10 ∨ a = 11 := by omega
+  have hB : b = 1 ∨ b = 2 ∨ b = 3 ∨ b = 4 ∨ b = 5 ∨ b = 6 ∨ b = 7 ∨ b = 8 ∨ b = 9 ∨ b = 10 ∨ b = 11 := by omega
+  rcases hA with e | e | e | e | e | e | e | e | e | e | e <;> subst e <;>
+    rcases hB with f | f | f | f | f | f | f | f | f | f | f <;> subst f <;>
+    first | rfl | (exact absurd h (by decide))
+
+/-! ## Kinds -/
+
+/-- does `tmap[kind]` read a file holding sockets of this family and type? (`None` = any type) -/
+def tmapSelects (c : Cfg) (kind : String) (family typ : Nat) : Bool :=
+  match c.tmap.lookup kind with
+  | some es => es.any fun e => e.2.1 == family && (e.2.2 == none || e.2.2 == some typ)
+  | none => false
+
+/-- does the front-end table `conn_tmap[kind]` list this family and type? -/
+def connSelects (kind : String) (family typ : Nat) : Bool :=
+  match Gen.C11.connTmap.lookup kind with
+  | some (fams, types) => fams.contains family && types.contains typ
+  | none => false
+
+def allFams : List Fam := [.inet4, .inet6, .unix]
+/-- every socket type Linux defines (STREAM, DGRAM, RAW, RDM, SEQPACKET, DCCP, PACKET) -/
+def allTypes : List Nat := [1, 2, 3, 4, 5, 6, 10]
+
+/-- **C11_kind_keys.** The kinds the front end accepts, the kinds the Linux back end knows and the
+    11 documented kinds are the same set. -/
+theorem C11_kind_keys (k : String) :
+    (k ∈ cfg.connKinds ↔ k ∈ kinds) ∧ ((cfg.tmap.lookup k).isSome ↔ k ∈ kinds) := by
+  have h1 : cfg.connKinds.all (fun k => kinds.contains k) = true := by decide
+  have h2 : kinds.all (fun k => cfg.connKinds.contains k) = true := by decide
+  have h3 : (cfg.tmap.map (·.1)).all (fun k => kinds.contains k) = true := by decide
+  have h4 : kinds.all (fun k => (cfg.tmap.lookup k).isSome) = true := by decide
+  refine ⟨⟨fun h => ?_, fun h => ?_⟩, ⟨fun h => ?_, fun h => ?_⟩⟩
+  · simpa using List.all_eq_true.mp h1 k h
+  · simpa using List.all_eq_true.mp h2 k h
+  · have : k ∈ cfg.tmap.map (·.1) := by
+      cases hl : cfg.tmap.lookup k with
+      | none => rw [hl] at h; cases h
+      | some v =>
+        clear h h1 h2 h3 h4
+        generalize cfg.tmap = m at hl
+        induction m with
+        | nil => cases hl
+        | cons a as ih =>
+          simp only [List.lookup] at hl
+          split at hl
+          · rename_i heq; simp at heq; simp [heq]
+          · simp [ih hl]
+    simpa using List.all_eq_true.mp h3 k this
+  · exact List.all_eq_true.mp h4 k h
+
+/-- **C11_kind_table.** For each of the 11 kinds, every family and every socket type: the Linux
+    table `tmap` (as extracted) selects a socket class exactly when the documented meaning of the
+    kind does — TCP = inet stream, UDP = inet datagram, UNIX = AF_UNIX of any type. -/
+theorem C11_kind_table (k : String) (hk : k ∈ kinds) (f : Fam) (typ : Nat) (ht : typ ∈ allTypes) :
+    tmapSelects cfg k f.num typ = kindSelects k f typ := by
+  have h : kinds.all (fun k => allFams.all fun f => allTypes.all fun t =>
+      tmapSelects cfg k f.num t == kindSelects k f t) = true := by decide
+  have hf : f ∈ allFams := by cases f <;> simp [allFams]
+  have := List.all_eq_true.mp (List.all_eq_true.mp (List.all_eq_true.mp h k hk) f hf) typ ht
+  simpa using this
+
+/-- **C11_kind_table_front.** The front-end table `conn_tmap` agrees with it on TCP/UDP; for
+    AF_UNIX it lists the family (its type list `[STREAM, DGRAM]` is narrower than what Linux
+    returns: SEQPACKET sockets are UNIX sockets too and are returned). -/
+theorem C11_kind_table_front (k : String) (hk : k ∈ kinds) (f : Fam) (typ : Nat) (ht : typ ∈ allTypes) :
+    (f ≠ .unix → connSelects k f.num typ = kindSelects k f typ) ∧
+    (f = .unix → (connSelects k f.num 1 = kindSelects k f typ ∧ connSelects k f.num 2 = kindSelects k f typ)) := by
+  have h : kinds.all (fun k => allFams.all fun f => allTypes.all fun t =>
+      (if f = .unix then connSelects k f.num 1 == kindSelects k f t && connSelects k f.num 2 == kindSelects k f t
+       else connSelects k f.num t == kindSelects k f t)) = true := by decide
+  have hf : f ∈ allFams := by cases f <;> simp [allFams]
+  have := List.all_eq_true.mp (List.all_eq_true.mp (List.all_eq_true.mp h k hk) f hf) typ ht
+  constructor
+  · intro hne; simpa [hne] using this
+  · intro he; simpa [he] using this
+
+/-- the five `(file, family, type)` classes of `/proc/net` -/
+def canonicalEntries : List TEntry :=
+  [("tcp", 2, some 1), ("tcp6", 10, some 1), ("udp", 2, some 2), ("udp6", 10, some 2), ("unix", 1, none)]
+
+/-- **C11_kind_files.** Every entry of every `tmap[kind]` names the file that holds its class
+    (`tcp` ↔ AF_INET/STREAM, `tcp6` ↔ AF_INET6/STREAM, `udp` ↔ AF_INET/DGRAM, `udp6` ↔ AF_INET6/DGRAM,
+    `unix` ↔ AF_UNIX/any). -/
+theorem C11_kind_files (k : String) (es : List TEntry) (h : cfg.tmap.lookup k = some es) :
+    ∀ e ∈ es, e ∈ canonicalEntries := by
+  have hall : cfg.tmap.all (fun kv => kv.2.all fun e => canonicalEntries.contains e) = true := by decide
+  intro e he
+  have hm : (k, es) ∈ cfg.tmap := by
+    clear hall
+    generalize cfg.tmap = m at h
+    induction m with
+    | nil => cases h
+    | cons a as ih =>
+      simp only [List.lookup] at h
+      split at h
+      · rename_i heq
+        have hk : k = a.1 := by simpa using heq
+        have hv : a.2 = es := by simpa using h
+        rw [hk, ← hv]; simp
+      · simp [ih h]
+  simpa using List.all_eq_true.mp (List.all_eq_true.mp hall _ hm) e he
+
+/-- **C11_unknown_kind_ValueError.** Any string that is not one of the 11 kinds makes both the
+    system-wide and the per-process form raise ValueError, before anything is read. -/
+theorem C11_unknown_kind_ValueError (le : Bool) (fs : ProcFs) (kind : String) (pid : Option Nat)
+    (h : kind ∉ kinds) : netConnections (cfgLE le) fs kind pid = .error .valueError := by
+  have : kind ∉ (cfgLE le).connKinds := fun hm => h ((C11_kind_keys kind).1.mp hm)
+  simp [netConnections, this]
+
+/-- …and each of the 11 kinds passes the check and reaches its `tmap` entry -/
+theorem C11_known_kind_accepted (le : Bool) (fs : ProcFs) (kind : String) (pid : Option Nat)
+    (h : kind ∈ kinds) : netConnections (cfgLE le) fs kind pid = retrieve (cfgLE le) fs kind pid := by
+  have : kind ∈ (cfgLE le).connKinds := (C11_kind_keys kind).1.mpr h
+  simp [netConnections, this]
+
+/-! ## Lines and files -/
+
+/-- **C11_inet_line.** Every line the kernel can print in net/tcp, tcp6, udp, udp6 — any address,
+    port, state, queue sizes, uid, inode, slot number, either endianness — is parsed into exactly
+    the promised tuple: family, type, both endpoints (empty for port 0), the state's name for TCP
+    and NONE for UDP, and the owner found under the line's inode. -/
+theorem C11_inet_line (le : Bool) (s : Sock) (hi : IsInet s) (hwf : s.WF) (sl : Nat) (inodes : Inodes)
+    (fp : Option Nat) :
+    processInetLine (cfgLE le) s.fam.num s.typ inodes fp (inetLine le (s.typ == 1) sl s) =
+      match pidFd inodes (renderDec s.inode) with
+      | .error e => .error e
+      | .ok (pid, fd) => if filteredOut fp pid then .ok none else .ok (some (rowFor s pid fd)) :=
+  processInetLine_render (cfgLE le) (cfgLE_good le) s hi hwf sl inodes fp
+
+/-- full statement about UNIX lines: one tuple per owner, each with the bound name exactly as the
+    kernel shows it — whatever bytes (blanks included) the name is made of -/
+def UnixLineFull (c : Cfg) : Prop :=
+  ∀ (s : Sock), s.fam = .unix → s.WF → ∀ (inodes : Inodes) (fp : Option Nat),
+    processUnixLine c inodes fp (unixLine s) =
+      .ok (((ownerPairs inodes (renderDec s.inode)).filter (fun p => !filteredOut fp p.1)).map
+        (fun p => rowFor s p.1 p.2))
+
+/-- **C11_unix_line.** Holds for the extracted configuration (path = rest of the line). -/
+theorem C11_unix_line (le : Bool) : UnixLineFull (cfgLE le) :=
+  fun s hu hwf inodes fp => processUnixLine_render (cfgLE le) (cfgLE_good le) s hu hwf inodes fp
+
+/-- the configuration of the code before `fix: … name contains a blank` -/
+def cfgOldPath : Cfg := { cfg with unixPathRest := false }
+
+/-- lead L11: a stream socket bound to `/tmp/my sock` -/
+def sockL11 : Sock :=
+  { fam := .unix, typ := 1, lip := [], lport := 0, rip := [], rport := 0, state := 1,
+    path := some (lit "/tmp/my sock"), inode := 20001, txq := 0, rxq := 0, uid := 0, refcnt := 2,
+    flags := 65536 }
+
+theorem l11_line : unixLine sockL11
+    = lit "0000000000000000: 00000002 00000000 00010000 0001 01 20001 /tmp/my sock" := by
+  simp [unixLine, unixFields, sockL11, renderDec, renderRadix, renderRadixAux, decimal, fieldsLine, hexW,
+    padTo, hexChr]
+  decide
+
+/-- **C11_unix_path_space_counterexample.** With `tokens[-1] if len(tokens) == 8 else ''` the full
+    statement is false: the socket bound to `/tmp/my sock` comes back with `laddr = ''`. -/
+theorem C11_unix_path_space_counterexample : ¬ UnixLineFull cfgOldPath := by
+  intro h
+  have hwf : sockL11.WF := by
+    simp only [Sock.WF, sockL11]
+    refine ⟨by decide, ?_⟩
+    intro p hp
+    cases hp
+    decide
+  have := h sockL11 rfl hwf [] none
+  rw [l11_line] at this
+  have h2 := congrArg Except.toOption this
+  revert h2
+  simp only [rowFor, baseRow, sockL11]
+  decide
+
+/-! ## Owners -/
+
+/-- full statement about the owner map: for every socket inode it holds exactly the visible
+    `(pid, fd)` holders of that socket — all processes, all descriptors, in listing order -/
+def OwnerFull (c : Cfg) : Prop :=
+  ∀ (le : Bool) (w : World), w.WF → ∀ i : Nat,
+    sem (getAllInodes c (renderWorld le w).procs) (renderDec i) = holders w i
+
+/-- **C11_owner.** Holds for the extracted configuration (per-process lists are merged). Together
+    with the line theorems: a held socket carries a holder's PID and descriptor number, a UNIX
+    socket one row per holder, a socket without visible holder `pid None, fd -1`. -/
+theorem C11_owner (le : Bool) : OwnerFull (cfgLE le) := by
+  intro le' w hw i
+  rw [(getAllInodes_spec (cfgLE le) (cfgLE_good le).inodesExtend _).1, allHits_render le' w hw i]
+
+/-- …and the map never holds an empty list, so `inodes[inode][0]` cannot fail -/
+theorem C11_owner_nonempty (le : Bool) (procs : List (Nat × Option (List FdEntry))) (k : Bytes)
+    (l : List (Nat × Nat)) (h : (getAllInodes (cfgLE le) procs).lookup k = some l) : l ≠ [] :=
+  (getAllInodes_spec (cfgLE le) (cfgLE_good le).inodesExtend procs).2 k l h
+
+/-- the same for the per-process form: exactly the process' own descriptors on that socket -/
+theorem C11_owner_per_process (pid i : Nat) (fds : List (Nat × Target)) (hw : ∀ e ∈ fds, e.2.WF) :
+    sem (getProcInodes pid (renderFds fds)) (renderDec i)
+      = fds.filterMap fun e => if e.2 = .sock i then some (pid, e.1) else none := by
+  rw [(getProcInodes_spec pid (renderFds fds)).1, hits_render pid i fds hw]
+
+/-- the configuration of the code before `fix: … socket shared by several processes` -/
+def cfgOldMerge : Cfg := { cfg with inodesExtend := false }
+
+/-- lead L12: socket 7 open as fd 3 in PID 10 and as fd 5 in PID 20 -/
+def worldL12 : World :=
+  { socks := [], procs := [(10, some [(3, .sock 7)]), (20, some [(5, .sock 7)])], v6 := true }
+
+/-- **C11_shared_socket_counterexample.** With `inodes.update(...)` the full statement is false:
+    the holder in PID 10 is forgotten. -/
+theorem C11_shared_socket_counterexample : ¬ OwnerFull cfgOldMerge := by
+  intro h
+  have hw : worldL12.WF := by
+    refine ⟨(by intro s hs; cases hs), ?_, (by intro _ s hs; cases hs)⟩
+    intro p hp fds hfd e he
+    simp only [worldL12, List.mem_cons, List.not_mem_nil, or_false] at hp
+    rcases hp with rfl | rfl <;> simp at hfd <;> subst hfd <;> simp at he <;> subst he <;> trivial
+  have := h true worldL12 hw 7
+  have e7 : renderDec 7 = [55] := by simp [renderDec, renderRadix, renderRadixAux, decimal]
+  simp only [renderWorld, worldL12, List.map, Option.map, renderTarget, e7] at this
+  revert this
+  decide
 
 end Psutil.C11
